@@ -2586,9 +2586,10 @@ class Composite(ArmiObject):
 
     def remove(self, obj):
         """Remove a particular child."""
+        # take it out of the child list first: if it is not a child this raises before anything changed
+        self._children.remove(obj)
         obj.parent = None
         obj.spatialLocator = obj.spatialLocator.detachedCopy()
-        self._children.remove(obj)
 
     def moveTo(self, locator):
         """Move to specific location in parent. Often in a grid."""
